@@ -233,6 +233,258 @@ Definition tree_glwe_trace (fam n : Z) (res a key : infos) (steps : Z) : tree :=
   (Seq (Scoped (t_glwe_trace_assign_same fam n (tmp_layout res a key) key steps))
        (if negb (i_base2k res =? i_base2k key) then Scoped (t_glwe_normalize fam n (i_rank res + 1)) else Nop)))).
 
+(* a rank-1 GLWE of the module's degree, the container the LWE conversions work in *)
+Definition glwe1 (n b2k k : Z) : infos := mk_glwe_layout n b2k k 1.
+
+(* api/conversion.rs: lwe_from_glwe(res, a, a_idx, key, scratch): a rank-1 temporary in the LWE's radix, key-switch into it
+   (a_idx = 0), resp. a rotated copy of a first (a_idx > 0) *)
+Definition tree_lwe_from_glwe (fam n : Z) (lwe a key : infos) : tree :=
+  let t := glwe1 n (i_base2k lwe) (i_max_k lwe) in
+  Seq (Need (lwe_from_glwe_tmp_bytes fam n lwe a key))
+  (Seq (t_take_glwe t)
+       (Branch (tree_glwe_keyswitch fam n t a key)
+               (Seq (t_take_glwe a) (Scoped (tree_glwe_keyswitch fam n t a key))))).
+
+(* api/keyswitching.rs: lwe_keyswitch(res, a, ksk, scratch) *)
+Definition tree_lwe_keyswitch (fam n : Z) (res a key : infos) : tree :=
+  let tin := glwe1 n (i_base2k a) (i_max_k a) in
+  let tout := glwe1 n (i_base2k res) (i_max_k res) in
+  Seq (Need (lwe_keyswitch_tmp_bytes fam n res a key))
+  (Seq (t_take_glwe tin) (Seq (t_take_glwe tout) (Scoped (tree_glwe_keyswitch fam n tout tin key)))).
+
+(* conversion/lwe_to_glwe.rs: glwe_from_lwe_default(res, lwe, ksk, scratch): rank-1 temporary in the key's radix holding the LWE,
+   filled directly or through a one-column buffer and two normalisations, then glwe_keyswitch(res, temporary) on scratch_1 *)
+Definition tree_glwe_from_lwe (fam n : Z) (res lwe key : infos) : tree :=
+  let t := glwe1 n (i_base2k key) (i_max_k lwe) in
+  Seq (Need (glwe_from_lwe_tmp_bytes fam n res lwe key))
+  (Seq (t_take_glwe t)
+  (Seq (if i_base2k lwe =? i_base2k key then Nop
+        else Scoped (Seq (Take (VecZnx_bytes_of n 1 (i_size lwe)))
+                         (Seq (Scoped (t_vec_znx_normalize n)) (Scoped (t_vec_znx_normalize n)))))
+       (Scoped (tree_glwe_keyswitch fam n res t key)))).
+
+(* glwe_packing.rs: pack_internal(a, b, i, key, scratch), the three non-trivial cases; every input has the layout `a` *)
+Definition t_pack_both (fam n : Z) (a key : infos) : tree :=
+  Seq (t_take_glwe a)                                                             (* tmp_b *)
+      (seq_scoped [tree_glwe_rotate_assign fam n a; tree_glwe_rsh fam n a; tree_glwe_rsh fam n a;
+                   t_glwe_normalize fam n (i_rank a + 1); tree_glwe_automorphism fam n a a key;
+                   t_glwe_normalize fam n (i_rank a + 1); tree_glwe_rotate_assign fam n a]).
+Definition t_pack_lo (fam n : Z) (a key : infos) : tree :=
+  Seq (Scoped (tree_glwe_rsh fam n a)) (Scoped (tree_glwe_automorphism_add fam n a a key)).
+Definition t_pack_hi (fam n : Z) (a key : infos) : tree :=
+  Seq (t_take_glwe a) (Seq (Scoped (tree_glwe_rsh fam n a)) (Scoped (tree_glwe_automorphism_add fam n a a key))).
+(* glwe_pack_default(res, inputs, log_gap_out, keys, scratch): the entry assertion on glwe_pack_tmp_bytes(res, key), then one
+   assertion per input on glwe_pack_tmp_bytes_for_input(res, input, key) (every input has the layout `a`), iters merge steps
+   (which of the three cases occurs depends on which slots are populated: all three must fit), then
+   glwe_trace(res, skip, inputs[0]) with steps = log_n - skip iterations *)
+Definition tree_glwe_pack (fam n : Z) (res a key : infos) (iters steps : Z) : tree :=
+  Seq (Need (glwe_pack_tmp_bytes fam n res key))
+  (Seq (Need (glwe_pack_tmp_bytes_for_input fam n res a key))
+  (Seq (Loop (nat_of iters) (Branch (t_pack_both fam n a key) (Branch (t_pack_lo fam n a key) (t_pack_hi fam n a key))))
+       (Scoped (tree_glwe_trace fam n res a key steps)))).
+
+(* conversion/gglwe_to_ggsw.rs: ggsw_expand_row_default(res, tsk, scratch): a_dft and a_0 for the whole call; per row the column 0
+   of res is brought into them (cross radix: vec_znx_normalize on scratch_2), then ggsw_expand_rows_internal: per column
+   res_dft (cols x tsk.size()), gglwe_product_dft, vec_znx_big_normalize per column of the result *)
+Definition t_ggsw_expand_rows (fam n : Z) (res tsk : infos) : tree :=
+  let cols := i_rank res + 1 in
+  let a_size := div_ceil (i_max_k res) (i_base2k tsk) in
+  Seq (Need (ggsw_expand_rows_tmp_bytes fam n res tsk))
+  (Seq (Take (hal_bytes_of_vec_znx_dft fam n (cols - 1) a_size))                                  (* a_dft *)
+  (Seq (Take (VecZnx_bytes_of n 1 a_size))                                                      (* a_0 *)
+       (Loop (nat_of (i_dnum res))
+          (Seq (if i_base2k res =? i_base2k tsk then Nop else Scoped (t_vec_znx_normalize n))
+               (Loop (nat_of (cols - 1))
+                  (Seq (Take (hal_bytes_of_vec_znx_dft fam n cols (i_size tsk)))                 (* res_dft *)
+                  (Seq (Scoped (t_gglwe_product_dft fam n (i_size tsk) (cols - 1) a_size tsk))
+                       (Loop (nat_of cols) (t_big_normalize fam n))))))))).
+(* ggsw_from_gglwe_default: glwe_copy per row, then ggsw_expand_row *)
+Definition tree_ggsw_from_gglwe (fam n : Z) (res tsk : infos) : tree :=
+  Seq (Need (ggsw_from_gglwe_tmp_bytes fam n res tsk)) (t_ggsw_expand_rows fam n res tsk).
+(* keyswitching/ggsw.rs: ggsw_keyswitch_default: glwe_keyswitch on column 0 of every row of a, then ggsw_expand_row *)
+Definition tree_ggsw_keyswitch (fam n : Z) (res a key tsk : infos) : tree :=
+  Seq (Need (ggsw_keyswitch_tmp_bytes fam n res a key tsk))
+  (Seq (Loop (nat_of (i_dnum a)) (Scoped (tree_glwe_keyswitch fam n res a key)))
+       (Scoped (t_ggsw_expand_rows fam n res tsk))).
+(* automorphism/ggsw_ct.rs: ggsw_automorphism_default: glwe_automorphism on column 0 of every row of res, then ggsw_expand_row *)
+Definition tree_ggsw_automorphism (fam n : Z) (res a key tsk : infos) : tree :=
+  Seq (Need (ggsw_automorphism_tmp_bytes fam n res a key tsk))
+  (Seq (Loop (nat_of (i_dnum res)) (Scoped (tree_glwe_automorphism fam n res a key)))
+       (Scoped (t_ggsw_expand_rows fam n res tsk))).
+
+(* ---------------------------------------------------------------------------------------------------- *)
+(* encryption of gadget ciphertexts and of evaluation keys *)
+(* encryption/gglwe.rs: gglwe_encrypt_sk: a plaintext container, then per (column, row): vec_znx_normalize_assign and
+   glwe_encrypt_sk (with its own entry assertion) on scratch_1 *)
+Definition tree_gglwe_encrypt_sk (fam n : Z) (res : infos) : tree :=
+  Seq (Need (gglwe_encrypt_sk_tmp_bytes fam n res))
+  (Seq (Take (VecZnx_bytes_of n 1 (i_size res)))                                                 (* tmp_pt *)
+       (Loop (nat_of (i_rank_in res * i_dnum res))
+          (Seq (Scoped (t_vec_znx_normalize n)) (Scoped (tree_glwe_encrypt_sk fam n res))))).
+(* encryption/ggsw.rs: ggsw_encrypt_sk: per row vec_znx_normalize_assign, then glwe_encrypt_sk_internal per column (the plaintext
+   goes to column col_j: for col_j >= 1 the internal routine normalises once more) *)
+Definition tree_ggsw_encrypt_sk (fam n : Z) (res : infos) : tree :=
+  Seq (Need (ggsw_encrypt_sk_tmp_bytes fam n res))
+  (Seq (Take (VecZnx_bytes_of n 1 (i_size res)))
+       (Loop (nat_of (i_dnum res))
+          (Seq (Scoped (t_vec_znx_normalize n))
+          (Seq (Scoped (t_glwe_encrypt_sk_internal fam n (i_size res) (i_rank res + 1) false))
+               (Loop (nat_of (i_rank res)) (t_glwe_encrypt_sk_internal fam n (i_size res) (i_rank res + 1) true)))))).
+(* encryption/glwe_switching_key.rs *)
+Definition tree_glwe_switching_key_encrypt_sk (fam n : Z) (res : infos) : tree :=
+  Seq (Need (glwe_switching_key_encrypt_sk_tmp_bytes fam n res))
+  (Seq (Take (ScalarZnx_bytes_of n (i_rank_in res)))                                             (* sk_in_tmp *)
+  (Seq (Take (hal_bytes_of_svp_ppol fam n (i_rank res)))                                         (* sk_out_tmp *)
+  (Seq (Scoped (Take (ScalarZnx_bytes_of n 1)))
+       (Scoped (tree_gglwe_encrypt_sk fam n res))))).
+(* encryption/glwe_automorphism_key.rs *)
+Definition tree_glwe_automorphism_key_encrypt_sk (fam n : Z) (res : infos) : tree :=
+  Seq (Need (glwe_automorphism_key_encrypt_sk_tmp_bytes fam n res))
+  (Seq (Take (hal_bytes_of_svp_ppol fam n (i_rank res)))                                         (* sk_out_prepared *)
+  (Seq (Scoped (Take (ScalarZnx_bytes_of n (i_rank res))))                                       (* sk_out *)
+       (Scoped (tree_gglwe_encrypt_sk fam n res)))).
+(* encryption/lwe_switching_key.rs *)
+Definition tree_lwe_switching_key_encrypt_sk (fam n : Z) (res : infos) : tree :=
+  Seq (Need (lwe_switching_key_encrypt_sk_tmp_bytes fam n res))
+  (Seq (Take (ScalarZnx_bytes_of n 1)) (Seq (Take (ScalarZnx_bytes_of n 1))
+  (Seq (Scoped (t_vec_znx_automorphism_assign n)) (Seq (Scoped (t_vec_znx_automorphism_assign n))
+       (Scoped (tree_glwe_switching_key_encrypt_sk fam n res)))))).
+(* encryption/glwe_to_lwe_key.rs *)
+Definition tree_glwe_to_lwe_key_encrypt_sk (fam n : Z) (res : infos) : tree :=
+  Seq (Need (glwe_to_lwe_key_encrypt_sk_tmp_bytes fam n res))
+  (Seq (Take (hal_bytes_of_svp_ppol fam n 1))
+  (Seq (Scoped (Seq (Take (ScalarZnx_bytes_of n 1)) (Scoped (t_vec_znx_automorphism_assign n))))
+       (Scoped (tree_gglwe_encrypt_sk fam n res)))).
+(* encryption/lwe_to_glwe_key.rs *)
+Definition tree_lwe_to_glwe_key_encrypt_sk (fam n : Z) (res : infos) : tree :=
+  Seq (Need (lwe_to_glwe_key_encrypt_sk_tmp_bytes fam n res))
+  (Seq (Take (ScalarZnx_bytes_of n 1))
+  (Seq (Scoped (t_vec_znx_automorphism_assign n)) (Scoped (tree_gglwe_encrypt_sk fam n res)))).
+(* layouts/glwe_secret_tensor.rs: glwe_secret_tensor_prepare *)
+Definition tree_glwe_secret_tensor_prepare (fam n rank : Z) : tree :=
+  Seq (Need (glwe_secret_tensor_prepare_tmp_bytes fam n rank))
+  (Seq (Take (hal_bytes_of_svp_ppol fam n rank))
+  (Seq (Take (hal_bytes_of_vec_znx_dft fam n rank 1))
+  (Seq (Take (hal_bytes_of_vec_znx_big fam n 1 1))
+  (Seq (Take (hal_bytes_of_vec_znx_dft fam n 1 1))
+       (Loop (nat_of (rank * (rank + 1) / 2)) (t_big_normalize fam n)))))).
+(* encryption/glwe_tensor_key.rs: the key is a GGLWE with one input column per pair *)
+Definition tensor_key_layout (res : infos) : infos :=
+  mk_gglwe_layout (i_n res) (i_base2k res) (i_max_k res) (GLWESecretTensor_pairs (i_rank res)) (i_rank res) (i_dnum res) (i_dsize res).
+Definition tree_glwe_tensor_key_encrypt_sk (fam n : Z) (res : infos) : tree :=
+  Seq (Need (glwe_tensor_key_encrypt_sk_tmp_bytes fam n res))
+  (Seq (Take (hal_bytes_of_svp_ppol fam n (i_rank res)))                                         (* sk_prepared *)
+  (Seq (Take (ScalarZnx_bytes_of n (GLWESecretTensor_pairs (i_rank res))))                       (* sk_tensor *)
+  (Seq (Scoped (tree_glwe_secret_tensor_prepare fam n (i_rank res)))
+       (Scoped (tree_gglwe_encrypt_sk fam n (tensor_key_layout res)))))).
+(* encryption/gglwe_to_ggsw_key.rs: one GGLWE per row of the tensor *)
+Definition tree_gglwe_to_ggsw_key_encrypt_sk (fam n : Z) (res : infos) : tree :=
+  Seq (Need (gglwe_to_ggsw_key_encrypt_sk_tmp_bytes fam n res))
+  (Seq (Take (hal_bytes_of_svp_ppol fam n (i_rank res)))
+  (Seq (Take (ScalarZnx_bytes_of n (GLWESecretTensor_pairs (i_rank res))))
+  (Seq (Scoped (tree_glwe_secret_tensor_prepare fam n (i_rank res)))
+  (Seq (Take (ScalarZnx_bytes_of n (i_rank res)))                                                (* sk_ij *)
+       (Loop (nat_of (i_rank res)) (Scoped (tree_gglwe_encrypt_sk fam n res))))))).
+
+(* ---------------------------------------------------------------------------------------------------- *)
+(* encryption/compressed/*.rs: the same routines with glwe_encrypt_sk_internal(compressed = true) called directly (it has no entry
+   assertion of its own; the takes do not depend on the flag) *)
+Definition tree_glwe_compressed_encrypt_sk (fam n : Z) (res : infos) : tree :=
+  Seq (Need (glwe_compressed_encrypt_sk_tmp_bytes fam n res))
+      (t_glwe_encrypt_sk_internal fam n (i_size res) (i_rank res + 1) false).
+Definition tree_gglwe_compressed_encrypt_sk (fam n : Z) (res : infos) : tree :=
+  Seq (Need (gglwe_compressed_encrypt_sk_tmp_bytes fam n res))
+  (Seq (Take (VecZnx_bytes_of n 1 (i_size res)))
+       (Loop (nat_of (i_rank_in res * i_dnum res))
+          (Seq (Scoped (t_vec_znx_normalize n)) (Scoped (t_glwe_encrypt_sk_internal fam n (i_size res) (i_rank res + 1) false))))).
+Definition tree_ggsw_compressed_encrypt_sk (fam n : Z) (res : infos) : tree :=
+  Seq (Need (ggsw_compressed_encrypt_sk_tmp_bytes fam n res))
+  (Seq (Take (VecZnx_bytes_of n 1 (i_size res)))
+       (Loop (nat_of (i_dnum res))
+          (Seq (Scoped (t_vec_znx_normalize n))
+          (Seq (Scoped (t_glwe_encrypt_sk_internal fam n (i_size res) (i_rank res + 1) false))
+               (Loop (nat_of (i_rank res)) (t_glwe_encrypt_sk_internal fam n (i_size res) (i_rank res + 1) true)))))).
+Definition tree_glwe_switching_key_compressed_encrypt_sk (fam n : Z) (res : infos) : tree :=
+  Seq (Need (glwe_switching_key_compressed_encrypt_sk_tmp_bytes fam n res))
+  (Seq (Take (ScalarZnx_bytes_of n (i_rank_in res)))
+  (Seq (Take (hal_bytes_of_svp_ppol fam n (i_rank res)))
+  (Seq (Scoped (Take (ScalarZnx_bytes_of n 1)))
+       (Scoped (tree_gglwe_compressed_encrypt_sk fam n res))))).
+Definition tree_glwe_automorphism_key_compressed_encrypt_sk (fam n : Z) (res : infos) : tree :=
+  Seq (Need (glwe_automorphism_key_compressed_encrypt_sk_tmp_bytes fam n res))
+  (Seq (Take (hal_bytes_of_svp_ppol fam n (i_rank res)))
+  (Seq (Scoped (Take (ScalarZnx_bytes_of n (i_rank res))))
+       (Scoped (tree_gglwe_compressed_encrypt_sk fam n res)))).
+Definition tree_glwe_tensor_key_compressed_encrypt_sk (fam n : Z) (res : infos) : tree :=
+  Seq (Need (glwe_tensor_key_compressed_encrypt_sk_tmp_bytes fam n res))
+  (Seq (Take (hal_bytes_of_svp_ppol fam n (i_rank res)))
+  (Seq (Take (ScalarZnx_bytes_of n (GLWESecretTensor_pairs (i_rank res))))
+  (Seq (Scoped (tree_glwe_secret_tensor_prepare fam n (i_rank res)))
+       (Scoped (tree_gglwe_compressed_encrypt_sk fam n (tensor_key_layout res)))))).
+Definition tree_gglwe_to_ggsw_key_compressed_encrypt_sk (fam n : Z) (res : infos) : tree :=
+  Seq (Need (gglwe_to_ggsw_key_compressed_encrypt_sk_tmp_bytes fam n res))
+  (Seq (Take (hal_bytes_of_svp_ppol fam n (i_rank res)))
+  (Seq (Take (ScalarZnx_bytes_of n (GLWESecretTensor_pairs (i_rank res))))
+  (Seq (Scoped (tree_glwe_secret_tensor_prepare fam n (i_rank res)))
+  (Seq (Take (ScalarZnx_bytes_of n (i_rank res)))
+       (Loop (nat_of (i_rank res)) (Scoped (tree_gglwe_compressed_encrypt_sk fam n res))))))).
+
+(* poulpy-bin-fhe bdd_arithmetic/eval.rs: cmux(res, t, f, s) / cmux_assign(res, a, s): glwe_sub into res, res_dft, the external
+   product on res itself, vec_znx_big_normalize per column; cmux_assign_neg(res, a, s): the difference goes to a temporary of
+   precision max(res, a) taken from the scratch first.  No entry assertion of their own. *)
+Definition cmux_tmp_layout (res a : infos) : infos :=
+  mk_glwe_layout (i_n res) (i_base2k res) (Z.max (i_max_k res) (i_max_k a)) (i_rank res).
+Definition tree_cmux (fam n : Z) (res s : infos) : tree :=
+  Seq (Take (hal_bytes_of_vec_znx_dft fam n (i_rank res + 1) (i_size s)))                         (* res_dft *)
+  (Seq (Scoped (t_glwe_external_product_internal fam n res s))
+       (Loop (nat_of (i_rank res + 1)) (t_big_normalize fam n))).
+Definition tree_cmux_assign_neg (fam n : Z) (res a s : infos) : tree :=
+  Seq (t_take_glwe (cmux_tmp_layout res a))                                                      (* tmp *)
+  (Seq (Take (hal_bytes_of_vec_znx_dft fam n (i_rank res + 1) (i_size s)))
+  (Seq (Scoped (t_glwe_external_product_internal fam n (cmux_tmp_layout res a) s))
+       (Loop (nat_of (i_rank res + 1)) (t_big_normalize fam n)))).
+
+(* operations/glwe.rs: glwe_tensor_relinearize(res, a, tsk, tsk_size, scratch); a is the tensor (its layout: base2k, size),
+   tsk the prepared tensor key (rank_in = number of pairs), tsk_size the number of limbs of res_dft chosen by the caller *)
+Definition tree_glwe_tensor_relinearize (fam n : Z) (res a tsk : infos) (tsk_size : Z) : tree :=
+  let cols := i_rank tsk + 1 in
+  let pairs := i_rank_in tsk in
+  let a_dft_size := div_ceil (i_size a * i_base2k a) (i_base2k tsk) in
+  let cross := negb (i_base2k a =? i_base2k tsk) in
+  Seq (Need (glwe_tensor_relinearize_tmp_bytes fam n res a tsk))
+  (Seq (Take (hal_bytes_of_vec_znx_dft fam n pairs a_dft_size))                                  (* a_dft *)
+  (Seq (if cross then Scoped (Seq (Take (VecZnx_bytes_of n 1 a_dft_size)) (Loop (nat_of pairs) (t_vec_znx_normalize n))) else Nop)
+  (Seq (Take (hal_bytes_of_vec_znx_dft fam n cols tsk_size))                                     (* res_dft *)
+  (Seq (Scoped (t_gglwe_product_dft fam n tsk_size pairs a_dft_size tsk))
+  (Seq (if cross then Scoped (Seq (Take (VecZnx_bytes_of n 1 a_dft_size)) (Loop (nat_of cols) (t_vec_znx_normalize n))) else Nop)
+       (Loop (nat_of (i_rank res + 1)) (t_big_normalize fam n))))))).
+
+(* normalize_input_limb_bound_with_offset (not a size query: used by the operations to choose the number of limbs of res_dft) *)
+Definition limb_bound_with_offset (full_size res_size res_base2k in_base2k res_offset : Z) : Z :=
+  normalize_input_limb_bound full_size res_size res_base2k in_base2k (res_offset mod in_base2k).
+Definition cnv_offset_hi (cnv_offset a_base2k : Z) : Z :=
+  if cnv_offset <? a_base2k then 0 else Z.max 0 (cnv_offset / a_base2k - 1).
+Definition cnv_offset_lo (cnv_offset a_base2k : Z) : Z :=
+  if cnv_offset <? a_base2k then - (a_base2k - cnv_offset mod a_base2k) else cnv_offset mod a_base2k.
+
+(* glwe_tensor_square_apply(cnv_offset, res, a, a_effective_k, scratch) *)
+Definition tree_glwe_tensor_square_apply (fam n : Z) (res a : infos) (cnv_offset : Z) : tree :=
+  let cols := i_rank res + 1 in
+  let asz := i_size a in
+  let dsz := limb_bound_with_offset (2 * asz - cnv_offset_hi cnv_offset (i_base2k a)) (i_size res) (i_base2k res) (i_base2k a)
+               (cnv_offset_lo cnv_offset (i_base2k a)) in
+  Seq (Need (glwe_tensor_square_apply_tmp_bytes fam n res a))
+  (Seq (Take (hal_bytes_of_cnv_pvec_left fam n cols asz))                                        (* a_prep *)
+  (Seq (Take (hal_bytes_of_cnv_pvec_right fam n cols asz))                                       (* b_prep *)
+  (Seq (Scoped (t_cnv_prepare_self fam n asz asz))
+  (Seq (Take (VecZnx_bytes_of n cols (i_size res)))                                              (* diag_terms *)
+  (Seq (Loop (nat_of cols)
+          (Seq (Take (hal_bytes_of_vec_znx_dft fam n 1 dsz))
+          (Seq (Scoped (t_cnv_apply_dft fam dsz asz asz)) (Scoped (t_big_normalize fam n)))))
+       (Loop (nat_of (cols * (cols - 1) / 2))
+          (Seq (Take (hal_bytes_of_vec_znx_dft fam n 1 dsz))
+          (Seq (Scoped (t_cnv_pairwise_apply_dft fam dsz asz asz)) (Scoped (t_big_normalize fam n)))))))))).
+
 (* operations/glwe.rs: glwe_mul_const(cnv_offset, res, a, b, scratch) *)
 Definition tree_glwe_mul_const (fam n : Z) (res a : infos) (b_len cnv_offset : Z) : tree :=
   let a_base2k := i_base2k a in
